@@ -26,9 +26,14 @@ use zcash_client_backend::data_api::wallet::input_selection::{
     GreedyInputSelector, LockFilter, LockedInputPolicy, NonEmptyBTreeSet, SpendPolicy,
 };
 use zcash_client_backend::data_api::wallet::{propose_transfer, ConfirmationsPolicy, LockRequest, TargetHeight};
+use zcash_client_backend::data_api::wallet::propose_shielding;
 use zcash_client_backend::data_api::{
-    Account as _, InputSource, MaxSpendMode, OutputLockStore, TargetValue, WalletRead,
+    Account as _, CoinbaseFilter, InputSource, MaxSpendMode, OutputLockStore, TargetValue, WalletRead, WalletWrite,
 };
+use zcash_client_backend::wallet::WalletTransparentOutput;
+use zcash_transparent::address::TransparentAddress;
+use zcash_transparent::bundle::{OutPoint, TxOut};
+use zcash_transparent::keys::TransparentKeyScope;
 use zcash_client_backend::fees::{
     orchard as ofees, sapling as sfees, standard, ChangeError, ChangeStrategy, ChangeValue, DustOutputPolicy,
     EphemeralBalance, SplitPolicy, StandardFeeRule, TransactionBalance,
@@ -107,6 +112,8 @@ struct Rec<S> {
     mode: u8,
     k: usize,
     log: RefCell<Vec<String>>,
+    /// shielding mode: log transparent inputs (outpoint -> row id) instead of shielded ones
+    utxo_ids: Option<BTreeMap<(Vec<u8>, u32), i64>>,
 }
 
 impl<S: ChangeStrategy> ChangeStrategy for Rec<S> {
@@ -143,6 +150,59 @@ impl<S: ChangeStrategy> ChangeStrategy for Rec<S> {
         ephemeral_balance: Option<EphemeralBalance>,
         wallet_meta: &Self::AccountMetaT,
     ) -> Result<TransactionBalance, ChangeError<Self::Error, NoteRefT>> {
+        if let Some(map) = &self.utxo_ids {
+            let tins: Vec<(i64, u64, OutPoint)> = transparent_inputs
+                .iter()
+                .map(|i| {
+                    let op = tfees::InputView::outpoint(i).clone();
+                    let id = *map.get(&(op.hash().to_vec(), op.n())).unwrap_or(&-1);
+                    (id, u64::from(tfees::InputView::coin(i).value()), op)
+                })
+                .collect();
+            let r = self.inner.compute_balance(
+                params,
+                target_height,
+                anchor_height,
+                zip318,
+                transparent_inputs,
+                transparent_outputs,
+                sapling,
+                orchard,
+                ironwood,
+                ephemeral_balance,
+                wallet_meta,
+            );
+            let tot: u64 = tins.iter().map(|x| x.1).sum();
+            let r = match (self.mode, r) {
+                (1, Ok(_)) if tins.len() >= 2 => {
+                    let m = tins.iter().min_by_key(|x| (x.1, x.0)).unwrap();
+                    Err(ChangeError::DustInputs { transparent: vec![m.2.clone()], sapling: vec![], orchard: vec![], ironwood: vec![] })
+                }
+                (2, Ok(_)) if tins.len() < self.k => Err(ChangeError::InsufficientFunds {
+                    available: Zatoshis::from_u64(tot).unwrap(),
+                    required: Zatoshis::from_u64(tot + 1).unwrap(),
+                }),
+                (3, Ok(b)) => Ok(TransactionBalance::new(
+                    b.proposed_change().to_vec(),
+                    (b.fee_required() + Zatoshis::const_from_u64(1)).unwrap(),
+                )
+                .unwrap()),
+                (_, r) => r,
+            };
+            let mut key: Vec<i64> = tins.iter().map(|x| x.0).collect();
+            key.sort();
+            let res = match &r {
+                Ok(b) => format!("TBal {} {}", changes_coq(b.proposed_change()), u64::from(b.fee_required())),
+                Err(ChangeError::InsufficientFunds { required, .. }) => format!("TInsuff {}", u64::from(*required)),
+                Err(ChangeError::DustInputs { transparent, .. }) => format!(
+                    "TDust {}",
+                    list(transparent.iter().map(|op| map.get(&(op.hash().to_vec(), op.n())).unwrap_or(&-1).to_string()))
+                ),
+                Err(_) => "TErr".to_string(),
+            };
+            self.log.borrow_mut().push(format!("({}, {})", list(key.iter().map(|x| x.to_string())), res));
+            return r;
+        }
         use ofees::InputView as _;
         use sfees::InputView as _;
         let mut ins: Vec<((ShieldedPool, i64), u64, NoteRefT)> = vec![];
@@ -276,6 +336,122 @@ impl Row {
     fn oref(&self) -> OutputRef {
         OutputRef::new(TxId::from_bytes(self.txid), PoolType::Shielded(self.pool), self.oidx)
     }
+}
+
+#[derive(Clone, Debug)]
+struct Urow {
+    id: i64,
+    acct: i64,
+    addr: i64,
+    scope: i64,
+    value: i64,
+    mined: Option<i64>,
+    expiry: Option<i64>,
+    txindex: Option<i64>,
+    maxobs: Option<i64>,
+    nowin: bool,
+    imp_pk: bool,
+    imp_script: bool,
+    lock: Option<i64>,
+    owner: Option<i64>,
+    spenders: Vec<(Option<i64>, Option<i64>, i64)>,
+    rank: i64,
+    txid: Vec<u8>,
+    oidx: u32,
+}
+
+impl Urow {
+    fn coq(&self) -> String {
+        format!(
+            "U {} {} {} {} {} {} {} {} {} {} {} {} {} {} {} {}",
+            self.id,
+            self.acct,
+            self.addr,
+            z(self.scope as i128),
+            self.value,
+            oz(self.mined),
+            oz(self.expiry),
+            oz(self.txindex),
+            oz(self.maxobs),
+            boolc(self.nowin),
+            boolc(self.imp_pk),
+            boolc(self.imp_script),
+            oz(self.lock),
+            oz(self.owner),
+            list(self.spenders.iter().map(|s| format!("Sp {} {} {}", oz(s.0), oz(s.1), s.2))),
+            self.rank
+        )
+    }
+}
+
+fn dump_utxos(st: &St, accts: &[AccountUuid], addrs: &[String]) -> Vec<Urow> {
+    let conn = st.wallet().conn();
+    let mut stmt = conn
+        .prepare(
+            "SELECT u.id, a.uuid, ad.cached_transparent_receiver_address, ad.key_scope, u.value_zat,
+                    t.mined_height, t.expiry_height, t.tx_index, u.max_observed_unspent_height,
+                    t.id_tx NOT IN (SELECT transaction_id FROM v_received_output_spends v WHERE v.account_id = a.id),
+                    ad.imported_transparent_receiver_pubkey IS NOT NULL, ad.imported_transparent_receiver_script IS NOT NULL,
+                    u.lock_expiry_height, u.lock_owner, t.txid, u.output_index
+             FROM transparent_received_outputs u
+             JOIN transactions t ON t.id_tx = u.transaction_id
+             JOIN accounts a ON a.id = u.account_id
+             JOIN addresses ad ON ad.id = u.address_id
+             ORDER BY u.id",
+        )
+        .unwrap();
+    let mut rows: Vec<Urow> = stmt
+        .query_map([], |r| {
+            let uuid: uuid::Uuid = r.get(1)?;
+            let a: Option<String> = r.get(2)?;
+            Ok(Urow {
+                id: r.get(0)?,
+                acct: accts.iter().position(|x| x.expose_uuid() == uuid).map(|i| i as i64).unwrap_or(9),
+                addr: a.and_then(|a| addrs.iter().position(|x| *x == a)).map(|i| i as i64).unwrap_or(9),
+                scope: r.get(3)?,
+                value: r.get(4)?,
+                mined: r.get(5)?,
+                expiry: r.get(6)?,
+                txindex: r.get(7)?,
+                maxobs: r.get(8)?,
+                nowin: r.get(9)?,
+                imp_pk: r.get(10)?,
+                imp_script: r.get(11)?,
+                lock: r.get(12)?,
+                owner: owner_code(r.get(13)?),
+                spenders: vec![],
+                rank: 0,
+                txid: r.get(14)?,
+                oidx: r.get(15)?,
+            })
+        })
+        .unwrap()
+        .map(|x| x.unwrap())
+        .collect();
+    for row in rows.iter_mut() {
+        let mut s = conn
+            .prepare(
+                "SELECT stx.mined_height, stx.expiry_height, stx.min_observed_height
+                 FROM transparent_received_output_spends sp JOIN transactions stx ON stx.id_tx = sp.transaction_id
+                 WHERE sp.transparent_received_output_id = ?1 ORDER BY stx.id_tx",
+            )
+            .unwrap();
+        row.spenders = s.query_map([row.id], |r| Ok((r.get(0)?, r.get(1)?, r.get(2)?))).unwrap().map(|x| x.unwrap()).collect();
+    }
+    // rank in OutPoint order
+    let mut ord: Vec<(OutPoint, i64)> = rows
+        .iter()
+        .map(|r| {
+            let mut h = [0u8; 32];
+            h.copy_from_slice(&r.txid);
+            (OutPoint::new(h, r.oidx), r.id)
+        })
+        .collect();
+    ord.sort();
+    for (k, (_, id)) in ord.iter().enumerate() {
+        rows.iter_mut().find(|r| r.id == *id).unwrap().rank = k as i64;
+    }
+    rows
 }
 
 struct Dump {
@@ -436,6 +612,8 @@ struct H {
     ncases: usize,
     /// NU6.3 (Ironwood) active from the first block; ZIP 318 grid of GRID blocks
     nu63: bool,
+    taddrs: Vec<TransparentAddress>,
+    pending_t: Vec<TxId>,
 }
 
 const GRID: u32 = 12;
@@ -503,6 +681,17 @@ impl H {
         let a0 = st.test_account().unwrap().clone();
         let (b_id, b_usk) = st.create_account_from_test_seed("B");
         let accts = vec![Acct { id: a0.id(), usk: a0.usk().clone() }, Acct { id: b_id, usk: b_usk }];
+        let taddrs: Vec<TransparentAddress> = accts
+            .iter()
+            .map(|a| {
+                *st.wallet()
+                    .get_last_generated_address_matching(a.id, UnifiedAddressRequest::AllAvailableKeys)
+                    .unwrap()
+                    .unwrap()
+                    .transparent()
+                    .unwrap()
+            })
+            .collect();
         H {
             st,
             accts,
@@ -515,6 +704,321 @@ impl H {
             stats: BTreeMap::new(),
             ncases: 0,
             nu63,
+            taddrs,
+            pending_t: vec![],
+        }
+    }
+
+    fn taddr_strings(&self) -> Vec<String> {
+        use zcash_keys::encoding::AddressCodec;
+        self.taddrs.iter().map(|a| a.encode(self.st.network())).collect()
+    }
+
+    fn udump(&self) -> Vec<Urow> {
+        dump_utxos(&self.st, &self.acct_ids(), &self.taddr_strings())
+    }
+
+    /// A transparent output received at one of the accounts' default transparent addresses.
+    fn op_utxo(&mut self) {
+        let Some(tip) = self.st.wallet().chain_height().unwrap() else { return };
+        let a = self.rng.below(2) as usize;
+        let mut h = [0u8; 32];
+        h.copy_from_slice(&self.rng.bytes(32));
+        let op = OutPoint::new(h, self.rng.below(3) as u32);
+        let v = self.value();
+        let mined = match self.rng.below(8) {
+            0 => None,
+            1 => Some(tip),
+            2 => Some(tip + 1),
+            _ => Some(BlockHeight::from_u32(u32::from(tip).saturating_sub(self.rng.below(12) as u32).max(ACTIVATION))),
+        };
+        let utxo = WalletTransparentOutput::from_parts(
+            op,
+            TxOut::new(Zatoshis::from_u64(v).unwrap(), self.taddrs[a].script().into()),
+            mined,
+            Some(self.accts[a].id),
+            Some(TransparentKeyScope::EXTERNAL),
+            None,
+        )
+        .unwrap();
+        let r = catch(|| self.st.wallet_mut().put_received_transparent_utxo(&utxo));
+        self.bump(if matches!(r, Some(Ok(_))) { "op_utxo_received" } else { "op_utxo_failed" });
+    }
+
+    fn rand_addrs(&mut self) -> (Vec<TransparentAddress>, Vec<i64>) {
+        match self.rng.below(6) {
+            0 => (vec![], vec![]),
+            1 | 2 => (vec![self.taddrs[0]], vec![0]),
+            3 => (vec![self.taddrs[1]], vec![1]),
+            _ => (self.taddrs.clone(), vec![0, 1]),
+        }
+    }
+
+    fn rand_filter(&mut self) -> (CoinbaseFilter, &'static str) {
+        match self.rng.below(6) {
+            0 => (CoinbaseFilter::CoinbaseOnly, "CbOnly"),
+            1 | 2 => (CoinbaseFilter::NonCoinbaseOnly, "CbNon"),
+            _ => (CoinbaseFilter::AllTransparentOutputs, "CbAll"),
+        }
+    }
+
+    fn tpolicy(&mut self) -> ConfirmationsPolicy {
+        match self.rng.below(6) {
+            0 => ConfirmationsPolicy::new_unchecked(1, 1, false),
+            1 => ConfirmationsPolicy::new_unchecked(2, 3, false),
+            2 => ConfirmationsPolicy::new_unchecked(1, 5, false),
+            3 => ConfirmationsPolicy::default(),
+            _ => ConfirmationsPolicy::MIN,
+        }
+    }
+
+    fn q_tselect(&mut self, ud: &[Urow]) {
+        let pol = self.tpolicy();
+        let Some((target, _)) = self.st.wallet().get_target_and_anchor_heights(pol.trusted()).unwrap() else { return };
+        let (addrs, addrc) = self.rand_addrs();
+        let (f, fc) = self.rand_filter();
+        let lf = self.rand_lf();
+        let lfr = match &lf {
+            Lf::Unfiltered => LockFilter::Unfiltered,
+            Lf::Pol(p) => LockFilter::Policy(p),
+        };
+        let r = catch(|| self.st.wallet().get_spendable_transparent_outputs_for_addresses(&addrs, target, pol, f, lfr));
+        let obs = match r {
+            None => PANIC.to_string(),
+            Some(Ok(outs)) => {
+                let mut v: Vec<i64> = outs
+                    .iter()
+                    .map(|o| {
+                        ud.iter()
+                            .find(|u| u.txid[..] == o.outpoint().hash()[..] && u.oidx == o.outpoint().n())
+                            .map(|u| u.id)
+                            .unwrap_or(-1)
+                    })
+                    .collect();
+                v.sort();
+                ok(list(v.iter().map(|x| x.to_string())))
+            }
+            Some(Err(_)) => err("ESelOther"),
+        };
+        case(format!(
+            "CTSelect {} {} {} {} {} {} {} {}",
+            list(ud.iter().map(|u| u.coq())),
+            u32::from(BlockHeight::from(target)),
+            list(addrc.iter().map(|x| x.to_string())),
+            pol_coq(&pol),
+            boolc(pol.allow_zero_conf_shielding()),
+            fc,
+            lf.coq(),
+            obs
+        ));
+        self.ncases += 1;
+        self.bump("q_tselect");
+    }
+
+    /// propose_shielding; returns the proposal for optional creation.
+    fn q_shield(&mut self, ud: &[Urow], d: &Dump, lock: Option<LockRequest>, plain: bool) -> Option<(usize, Proposal<StandardFeeRule, Infallible>, Vec<TransparentAddress>)> {
+        let pol = if plain { ConfirmationsPolicy::MIN } else { self.tpolicy() };
+        let (env, _) = self.env_coq(d, &pol);
+        let (addrs, addrc) = if plain { (self.taddrs.clone(), vec![0, 1]) } else { self.rand_addrs() };
+        let (f, fc) = if plain { (CoinbaseFilter::AllTransparentOutputs, "CbAll") } else { self.rand_filter() };
+        let to = self.rng.below(2) as usize;
+        let tot: i64 = ud.iter().map(|u| u.value).sum();
+        let threshold = match self.rng.below(5) {
+            0 => 0,
+            1 => 10000,
+            2 => (tot.max(0) as u64) + 1,
+            _ => self.rng.range(0, (tot.max(1) as u64)),
+        };
+        let threshold = if plain { 1 } else { threshold };
+        let lip = if plain {
+            LockedInputPolicy::Exclude
+        } else if lock.is_some() && self.rng.bool() {
+            let other = if lock.unwrap().owner().as_bytes()[0] == 1 { 2 } else { 1 };
+            LockedInputPolicy::PreferLocked(
+                NonEmptyBTreeSet::from_set([owner(other)].into_iter().collect::<BTreeSet<_>>()).unwrap(),
+            )
+        } else {
+            match self.rand_lf() {
+                Lf::Unfiltered => LockedInputPolicy::Exclude,
+                Lf::Pol(p) => p,
+            }
+        };
+        let (mode, k) = if plain {
+            (0u8, 0usize)
+        } else {
+            match self.rng.below(10) {
+                0 | 1 => (1, 0),
+                2 => (2, 1 + self.rng.below(3) as usize),
+                3 => (3, 0),
+                _ => (0, 0),
+            }
+        };
+        let change_pool = if plain || !self.rng.chance(1, 3) { ShieldedPool::Sapling } else { ShieldedPool::Orchard };
+        let inner = standard::SingleOutputChangeStrategy::<TestDb>::new(
+            StandardFeeRule::Zip317,
+            None,
+            change_pool,
+            DustOutputPolicy::default(),
+        );
+        let map: BTreeMap<(Vec<u8>, u32), i64> = ud.iter().map(|u| ((u.txid.clone(), u.oidx), u.id)).collect();
+        let rec = Rec { inner, mode, k, log: RefCell::new(vec![]), utxo_ids: Some(map) };
+        let sel = GreedyInputSelector::<TestDb>::new().with_locked_input_policy(lip.clone());
+        let net = self.st.network().clone();
+        let to_acct = self.accts[to].id;
+        let r = catch(|| {
+            propose_shielding::<_, _, _, _, Infallible>(
+                self.st.wallet_mut(),
+                &net,
+                &sel,
+                &rec,
+                Zatoshis::from_u64(threshold).unwrap(),
+                &addrs,
+                to_acct,
+                pol,
+                f,
+                lock,
+            )
+        });
+        let res = r.map(|x| x.map_err(|e| format!("{:?}", e)));
+        let obs = match &res {
+            None => PANIC.to_string(),
+            Some(Ok(p)) => {
+                let steps = p.steps().iter().map(|s| {
+                    let mut tins: Vec<i64> = s
+                        .transparent_inputs()
+                        .iter()
+                        .map(|o| {
+                            ud.iter()
+                                .find(|u| u.txid[..] == o.outpoint().hash()[..] && u.oidx == o.outpoint().n())
+                                .map(|u| u.id)
+                                .unwrap_or(-1)
+                        })
+                        .collect();
+                    tins.sort();
+                    let inval: u64 = s.transparent_inputs().iter().map(|o| u64::from(o.value())).sum();
+                    let pay: u64 = s.transaction_request().total().unwrap().map(u64::from).unwrap_or(0);
+                    format!(
+                        "(Step [] {} {} {} {} {} {})",
+                        inval,
+                        list(tins.iter().map(|x| x.to_string())),
+                        pay,
+                        changes_coq(s.balance().proposed_change()),
+                        u64::from(s.balance().fee_required()),
+                        opt(s.anchor_height().map(|a| u32::from(a).to_string()))
+                    )
+                });
+                ok(list(steps))
+            }
+            Some(Err(s)) => err(if s.starts_with("InsufficientFunds") {
+                "EInsufficient"
+            } else if s.starts_with("ScanRequired") {
+                "ESyncRequired"
+            } else if s.starts_with("Proposal(InputsLocked") {
+                "ELocked"
+            } else if s.starts_with("Proposal(BalanceError") {
+                "EBalance"
+            } else if s.starts_with("Proposal(") {
+                "EProposal"
+            } else if s.starts_with("Change(") {
+                "EChange"
+            } else {
+                "EOther"
+            }),
+        };
+        self.bump(&format!("shield_{}", if obs.starts_with("(Ok") { "ok".to_string() } else { obs.replace("(Err ", "").replace(')', "") }));
+        let lockc = match lock {
+            None => "None".to_string(),
+            Some(l) => format!("(Some ({}, {}))", l.owner().as_bytes()[0], l.for_blocks()),
+        };
+        case(format!(
+            "CShield {} {} {} {} {} {} {} {} {} {} {} {}",
+            list(ud.iter().map(|u| u.coq())),
+            env,
+            threshold,
+            list(addrc.iter().map(|x| x.to_string())),
+            pol_coq(&pol),
+            boolc(pol.allow_zero_conf_shielding()),
+            fc,
+            lip_coq(&lip),
+            boolc(self.nu63),
+            lockc,
+            list(rec.log.into_inner().into_iter()),
+            obs
+        ));
+        self.ncases += 1;
+        match res {
+            Some(Ok(p)) => Some((to, p, addrs)),
+            _ => None,
+        }
+    }
+
+    /// A shielding transaction created for real (Sapling change, mock provers) and stored pending.
+    fn op_shield_store(&mut self) {
+        let accts = self.acct_ids();
+        let ud = self.udump();
+        let d = dump(&self.st, &accts);
+        let lock = if self.rng.chance(1, 3) { Some(LockRequest::new(owner(1 + self.rng.below(2) as u8), 1 + self.rng.below(6) as u32)) } else { None };
+        if let Some((_to, p, _)) = self.q_shield(&ud, &d, lock, true) {
+            // the spending keys must cover the input addresses: try both accounts
+            let net = self.st.network().clone();
+            let never = self.rng.chance(1, 3);
+            for a in 0..2 {
+                let usk = self.accts[a].usk.clone();
+                let r = catch(|| {
+                    zcash_client_backend::data_api::wallet::create_proposed_transactions::<_, _, Infallible, _, Infallible, _>(
+                        self.st.wallet_mut(),
+                        &net,
+                        &sapling::prover::mock::MockSpendProver,
+                        &sapling::prover::mock::MockOutputProver,
+                        &zcash_client_backend::data_api::wallet::SpendingKeys::from_unified_spending_key(usk),
+                        OvkPolicy::Sender,
+                        &p,
+                        if never { Some(BlockHeight::from_u32(0)) } else { None },
+                    )
+                });
+                if let Some(Ok(txids)) = r {
+                    if !never {
+                        self.pending_t.push(txids[0]);
+                    }
+                    self.bump("op_shield_created");
+                    return;
+                }
+            }
+            self.bump("op_shield_create_failed");
+        }
+    }
+
+    fn op_lock_utxo(&mut self) {
+        let ud = self.udump();
+        if ud.is_empty() {
+            return;
+        }
+        let u = &ud[self.rng.below(ud.len() as u64) as usize];
+        let mut h = [0u8; 32];
+        h.copy_from_slice(&u.txid);
+        let r = OutputRef::new(TxId::from_bytes(h), PoolType::TRANSPARENT, u.oidx);
+        let tip = self.st.wallet().chain_height().unwrap().map(u32::from).unwrap_or(0);
+        let exp = tip + self.rng.below(8) as u32;
+        let k = 1 + self.rng.below(2) as u8;
+        let _ = catch(|| self.st.wallet_mut().lock_outputs(&[r], owner(k), BlockHeight::from_u32(exp)));
+        self.bump("op_lock_utxo");
+    }
+
+    fn tqueries(&mut self, nsel: usize, nsh: usize) {
+        let ud = self.udump();
+        for _ in 0..nsel {
+            self.q_tselect(&ud);
+        }
+        for _ in 0..nsh {
+            let accts = self.acct_ids();
+            let ud = self.udump();
+            let d = dump(&self.st, &accts);
+            let lock = if self.rng.chance(1, 4) {
+                Some(LockRequest::new(owner(1 + self.rng.below(3) as u8), self.rng.below(8) as u32))
+            } else {
+                None
+            };
+            self.q_shield(&ud, &d, lock, false);
         }
     }
 
@@ -987,7 +1491,7 @@ impl H {
                     Zatoshis::const_from_u64(20000),
                 ),
             );
-            let rec = Rec { inner, mode, k, log: RefCell::new(vec![]) };
+            let rec = Rec { inner, mode, k, log: RefCell::new(vec![]), utxo_ids: None };
             let r = catch(|| {
                 propose_transfer::<_, _, _, _, Infallible>(
                     self.st.wallet_mut(),
@@ -1010,7 +1514,7 @@ impl H {
                 change_pool,
                 DustOutputPolicy::default(),
             );
-            let rec = Rec { inner, mode, k, log: RefCell::new(vec![]) };
+            let rec = Rec { inner, mode, k, log: RefCell::new(vec![]), utxo_ids: None };
             let r = catch(|| {
                 propose_transfer::<_, _, _, _, Infallible>(
                     self.st.wallet_mut(),
@@ -1046,7 +1550,7 @@ impl H {
                         "(Step {} {} {} {} {} {} {})",
                         list(ins.iter().map(pid_coq)),
                         inval,
-                        s.transparent_inputs().len(),
+                        list(s.transparent_inputs().iter().map(|_| "(-1)".to_string())),
                         pay,
                         changes_coq(s.balance().proposed_change()),
                         u64::from(s.balance().fee_required()),
@@ -1277,15 +1781,41 @@ impl H {
         if self.rng.chance(1, 3) {
             // nothing scanned yet: no anchor
             self.queries(1, 2);
+            self.tqueries(1, 1);
         }
         // a first funded block so that most histories have something to select
         self.op_receive(true);
+        if self.rng.chance(2, 3) {
+            self.op_utxo();
+            self.op_utxo();
+        }
         let n0 = 1 + self.rng.below(3) as usize;
         self.op_empty(n0, true);
         for _ in 0..nops {
             let scan_now = !self.rng.chance(1, 4);
             let accts = self.acct_ids();
-            match self.rng.below(25) {
+            match self.rng.below(31) {
+                25..=27 => {
+                    self.op_utxo();
+                    if self.rng.bool() {
+                        self.op_utxo();
+                    }
+                }
+                28 => self.op_shield_store(),
+                29 => {
+                    self.op_lock_utxo();
+                    self.op_lock_utxo();
+                }
+                30 => {
+                    if !self.pending_t.is_empty() {
+                        let i = self.rng.below(self.pending_t.len() as u64) as usize;
+                        let txid = self.pending_t.remove(i);
+                        if let Some((h, _)) = catch(|| self.st.generate_next_block_including(txid)) {
+                            self.after_block(h, true);
+                            self.bump("op_mine_shielding");
+                        }
+                    }
+                }
                 22..=24 => {
                     let d = dump(&self.st, &accts);
                     self.op_boundary(&d)
@@ -1328,6 +1858,7 @@ impl H {
                 self.op_empty(n, true);
             }
             self.queries(nsel, nprop);
+            self.tqueries(2, 1);
         }
     }
 }
